@@ -166,7 +166,7 @@ Lemma vinv_init : forall n, (1 <= n)%nat -> vinv n (vinit (Z.of_nat n)).
 Proof.
   intros n Hn. unfold vinv, vinit; cbn. split; [constructor|]. split; [intros i []|].
   repeat split; try lia.
-  destruct (Z.of_nat n - 0 - 0 =? 0) eqn:E; [apply Z.eqb_eq in E; lia | reflexivity].
+  destruct (Z.of_nat n =? 0) eqn:E; [apply Z.eqb_eq in E; lia | reflexivity].
 Qed.
 
 Lemma vinv_step : forall n s e s', (1 <= n)%nat -> Z.of_nat n < 2 ^ 64 -> vinv n s -> vstep n s e = Some s' -> vinv n s'.
